@@ -1,6 +1,6 @@
 from props import tu, run
 
-_PARTS = 5
+_PARTS = 7
 
 CFG = dict(
     level="exploration",
@@ -15,6 +15,9 @@ CFG = dict(
                 "marginals sum to 1, in-range bins keep their fractional values).  The std::vector / std::array<T,max+1> / std::map fillers and their cumulative forms are compared "
                 "with the loop and with the sparse histogram of the gray conversion, with and without accumulate.  Seeded "
                 "contents; ASan+UBSan+libstdc++ assertions armed."),
+    # bin-width sweep (parts 5, 6): gray8/gray8s/rgb8/rgb8s hold every 8-bit channel value, gray16/gray16s every bin boundary
+    # k*w-1, k*w, k*w+1; widths 1..256 (all of them for 8 bit in both tiers and for 16 bit in thorough; 1..48 + primes +
+    # powers of two + multiples of 25/41 in quick for 16 bit) plus 257..65535 samples; all 16 mask/limit/accumulate/dense variants
     level_note="contents, masks and limit boxes are seeded samples within each (type, shape, bin width, variant) class; trusts the std::map oracle",
     technique="differential run of the real histogram code against a std::map<key,count> loop model, ASan/UBSan build",
     rule=("one case per (pixel type, view shape w x h); inside: bin widths x content classes (non-negative / with negative values "
@@ -23,8 +26,8 @@ CFG = dict(
           "(type, histogram shape, bin-width class, variant, prior contents, view contents) tuples measured by hashing the "
           "contents (empty views are not counted)."),
     exhaustive={"quick": False, "thorough": False},
-    exhaustive_domain={"quick": "all shapes 0..6 x 0..6, all bin widths 1..5, all 16 variants per type; contents/masks/limits seeded",
-                       "thorough": "all shapes 0..9 x 0..9, all bin widths 1..8, 3 rounds; contents/masks/limits seeded"},
+    exhaustive_domain={"quick": "all shapes 0..6 x 0..6, all bin widths 1..5, all 16 variants per type; contents/masks/limits seeded.  Bin-width sweep: complete over (8-bit value, width 1..256) for gray8/gray8s/rgb8/rgb8s; 16-bit: every bin boundary +-1 for a dense sample of widths (1..48, primes, powers of two, multiples of 25 and 41, 7 widths above 256)",
+                       "thorough": "all shapes 0..9 x 0..9, all bin widths 1..8, 3 rounds; contents/masks/limits seeded.  Bin-width sweep: complete over (8-bit value, width 1..256) for gray8/gray8s/rgb8/rgb8s; 16-bit: every bin boundary +-1 for widths 1..256 and 307 larger widths"},
     types=["gray8", "gray8s", "gray16", "gray16s", "dev2n8", "rgb8", "rgb8s", "rgb16", "rgba8", "cmyk16s",
            "histogram<int...> of full dimension", "histogram<unsigned char>", "histogram<short>", "histogram<short> <1> of rgb8",
            "histogram<int,int> <2,1> of rgb8", "histogram<int,long> <3,0> of rgba8",
@@ -36,11 +39,12 @@ CFG = dict(
                  "std-container fillers: unsigned 8/16-bit channels only, as the header requires; the gray conversion is GIL's own (judged by C09)",
                  "histogram_equalization / histogram_matching are not exercised (not part of the statement)"],
     tus=[tu("c19_asan%d" % k, "harness/c19_histogram.cpp", "asan", extra=["-DC19_PART=%d" % k]) for k in range(_PARTS)],
-    runs=[run("c19_asan%d" % k, shards=4 if k < 4 else 8,
-              min_cases={"quick": [196, 98, 98, 98, 196][k], "thorough": [400, 200, 200, 200, 400][k]}) for k in range(_PARTS)],
+    runs=[run("c19_asan%d" % k, shards=[4, 4, 4, 4, 8, 8, 8][k],
+              min_cases={"quick": [196, 98, 98, 98, 196, 1024, 200][k], "thorough": [400, 200, 200, 200, 400, 1024, 1100][k]}) for k in range(_PARTS)],
     require_obs=["fill.dense.accumulate*", "fill.dense.replace*", "fill.sparse.accumulate*", "fill.sparse.replace.mask.limits",
                  "fill.dense-noop.*", "std.accumulate", "std.replace",
                  "content.neg-nonmultiple.bw-pow2", "content.neg-nonmultiple.bw-other",
+                 "binning.8bit.signed.bw>=41", "binning.8bit.unsigned.bw>=41", "binning.16bit.signed.bw>=41", "binning.16bit.unsigned.bw>=41",
                  "post.normalized.d1.fractional", "post.normalized.d2.fractional", "post.normalized.d3.fractional", "post.normalized.d4.fractional",
                  "cumulative.corner.normalized.d1", "cumulative.corner.normalized.d2", "cumulative.corner.normalized.d3", "cumulative.corner.normalized.d4"],
 )
